@@ -189,6 +189,7 @@ async fn run_history(ops: &[Op], ack_deadline_s: u64, uptime_days: u64) -> Resul
     let mut m = Model { pending: Vec::new(), leases: BTreeMap::new(), ghosts: Vec::new(), used_ack_ids: Vec::new(), acked: Vec::new(), published: Vec::new(), delivered_once: Vec::new() };
     let mut payload = 0u32;
     let mut ghost_era = false;
+    let mut modified_any = false;
     for (k, op) in ops.iter().enumerate() {
         let fail = |prop: &'static str, what: String| Err(Fail { prop, what: format!("step {} {}: {}", k, op_to_json(op), what) });
         let stats_tag: &'static str;
@@ -256,6 +257,7 @@ async fn run_history(ops: &[Op], ack_deadline_s: u64, uptime_days: u64) -> Resul
             }
             Op::Modify(ms) => {
                 stats_tag = "C05";
+                modified_any = true;
                 let now = Instant::now();
                 m.expire(now);
                 let ms: Vec<(u64, i32)> = ms.iter().map(|(i, s)| if ghost_era && !m.used_ack_ids.contains(i) { (*i + 1_000_000, *s) } else { (*i, *s) }).collect();
@@ -358,13 +360,18 @@ async fn run_history(ops: &[Op], ack_deadline_s: u64, uptime_days: u64) -> Resul
             // for redelivery"); anything else is attributed to the kind of step that produced it
             let (have, want) = (stats.outstanding_messages_count + stats.backlog_messages_count, m.leases.len() + m.ghosts.len() + m.pending.len());
             // ... and a message held TWICE (more messages than were ever handed over) can be leased to two consumers at once (C03)
-            let mut tag = if have < want { match (stats_tag, topic.is_none()) { ("C02", _) => "C02+C01+C04", ("C05", _) => "C05+C01+C04", (_, true) => "C11+C01+C04", _ => "C01+C04" } } else if have > want { match stats_tag { "C05" => "C05+C03", "C04" => "C04+C03", "C02" => "C02+C03", "C01" => "C01+C03", "C03+C16" => "C03+C04+C16", _ => "C03" } } else { stats_tag };
+            let mut tag = if have < want { match (stats_tag, topic.is_none()) { ("C02", _) => "C02+C01+C04", ("C05", _) => "C05+C01+C04", (_, true) => "C11+C01+C04", _ => "C01+C04" } } else if have > want { match stats_tag { "C05" => "C05+C03+C02", "C04" => "C04+C03+C02", "C02" => "C02+C03", "C01" => "C01+C03+C02", "C03+C16" => "C03+C04+C02+C16", _ => "C03+C02" } } else { stats_tag };
+            if have == want && stats.outstanding_messages_count < m.leases.len() + m.ghosts.len() && stats_tag == "C04" {
+                // a lease was requeued although its (possibly extended) deadline has not passed: early (C04 "never earlier") and,
+                // for the consumer holding it, no longer exclusive (C03)
+                tag = "C04+C03+C05";
+            }
             if have == want && stats.outstanding_messages_count > m.leases.len() + m.ghosts.len() {
                 // a lease that should have been requeued is still outstanding: late (C04) - or stuck for good, in which case
                 // the message is never redelivered (C01)? Every deadline is at most 600 s away; look again after 700 s.
                 tokio::time::advance(Duration::from_secs(700)).await;
                 settle().await;
-                if let Ok(later) = sub.get_stats().await { if later.outstanding_messages_count > 0 { tag = "C04+C01"; } }
+                if let Ok(later) = sub.get_stats().await { if later.outstanding_messages_count > 0 { tag = if modified_any { "C04+C01+C05" } else { "C04+C01" }; } }
             }
             return fail(tag, format!("stats outstanding/backlog = {}/{}, expected {}/{}", stats.outstanding_messages_count, stats.backlog_messages_count, m.leases.len() + m.ghosts.len(), m.pending.len()));
         }
@@ -689,7 +696,7 @@ fn cmd_paging(n: usize) -> i32 {
 // lifecycle histories over a small pool of names: namespaces as maps (C10), deletion consistency (C11),
 // global id uniqueness (C09), fan-out to exactly the attached subscriptions (C01), listing order (C13)
 #[derive(Clone, Debug)]
-enum LOp { CreateTopic(usize), DeleteTopic(usize, bool), CreateSub(usize, usize, bool), RaceCreateSub(usize, usize), DeleteSub(usize), Publish(usize, u8), DropHandles, DeleteHeld, CreateSubHeld(usize), DeleteSubUnderLoad(usize) }
+enum LOp { CreateTopic(usize), DeleteTopic(usize, bool), CreateSub(usize, usize, bool), RaceCreateSub(usize, usize), DeleteSub(usize), Publish(usize, u8), DropHandles, DeleteHeld, CreateSubHeld(usize), DeleteSubUnderLoad(usize), DeleteSubStale }
 fn lop_json(o: &LOp) -> String {
     match o {
         LOp::CreateTopic(t) => format!("[\"create_topic\",{}]", t),
@@ -702,6 +709,7 @@ fn lop_json(o: &LOp) -> String {
         LOp::DeleteHeld => "[\"delete_held\"]".to_string(),
         LOp::CreateSubHeld(s) => format!("[\"create_sub_held\",{}]", s),
         LOp::DeleteSubUnderLoad(s) => format!("[\"delete_sub_under_load\",{}]", s),
+        LOp::DeleteSubStale => "[\"delete_sub_stale\"]".to_string(),
     }
 }
 fn lops_json(v: &[LOp]) -> String { format!("[{}]", v.iter().map(lop_json).collect::<Vec<_>>().join(",")) }
@@ -722,6 +730,7 @@ fn parse_lops(s: &str) -> Vec<LOp> {
             "delete_held" => out.push(LOp::DeleteHeld),
             "create_sub_held" => out.push(LOp::CreateSubHeld(n(1))),
             "delete_sub_under_load" => out.push(LOp::DeleteSubUnderLoad(n(1))),
+            "delete_sub_stale" => out.push(LOp::DeleteSubStale),
             _ => {}
         }
     }
@@ -741,6 +750,7 @@ async fn run_lifecycle(ops: &[LOp]) -> Result<(), Fail> {
     let mut clock = 0u64;
     let mut all_ids: Vec<u64> = Vec::new();
     let mut held: Vec<(usize, Arc<Topic>)> = Vec::new();
+    let mut stale_subs: Vec<Arc<Subscription>> = Vec::new();
     for (k, op) in ops.iter().enumerate() {
         let fail = |prop: &'static str, what: String| Err(Fail { prop, what: format!("step {} {}: {}", k, lop_json(op), what) });
         clock += 1;
@@ -790,6 +800,7 @@ async fn run_lifecycle(ops: &[LOp]) -> Result<(), Fail> {
                         if !subs[*s].alive { return fail("C10", "get_subscription found a deleted / never created subscription".into()); }
                         let r = h.delete().await;
                         if r.is_err() { return fail("C11", "DeleteSubscription returned an error".into()); }
+                        if stale_subs.len() < 4 { stale_subs.push(Arc::clone(&h)); }
                         subs[*s].alive = false;
                         let t = subs[*s].topic;
                         topics[t].subs.retain(|x| x != s);
@@ -853,6 +864,11 @@ async fn run_lifecycle(ops: &[LOp]) -> Result<(), Fail> {
                 }
             }
             LOp::DropHandles => { held.clear(); }
+            LOp::DeleteSubStale => {
+                // a late, repeated DeleteSubscription on handles of already deleted incarnations (a retried request): no-ops;
+                // in particular a subscription re-created under the same name stays attached and registered
+                for h in stale_subs.iter() { let _ = h.delete().await; }
+            }
             LOp::CreateSubHeld(s) => {
                 // CreateSubscription racing DeleteTopic: the handler looked the topic up, the topic was deleted, then the
                 // create runs with the handle of the deleted incarnation. Whatever the outcome, it is all-or-nothing (C10).
@@ -879,7 +895,7 @@ async fn run_lifecycle(ops: &[LOp]) -> Result<(), Fail> {
         // produced it (create -> C10, delete -> C11), a wrong ORDER of the right set to C13
         let state_tag: &'static str = match op {
             LOp::CreateTopic(_) | LOp::CreateSub(_, _, _) | LOp::RaceCreateSub(_, _) | LOp::CreateSubHeld(_) => "C10",
-            LOp::DeleteTopic(_, _) | LOp::DeleteSub(_) | LOp::DeleteSubUnderLoad(_) | LOp::DeleteHeld | LOp::DropHandles => "C11",
+            LOp::DeleteTopic(_, _) | LOp::DeleteSub(_) | LOp::DeleteSubUnderLoad(_) | LOp::DeleteSubStale | LOp::DeleteHeld | LOp::DropHandles => "C11",
             LOp::Publish(_, _) => "C01",
         };
         let set_or_order = |got: &Vec<String>, want: &Vec<String>| -> &'static str {
@@ -913,13 +929,13 @@ async fn run_lifecycle(ops: &[LOp]) -> Result<(), Fail> {
             want.sort();
             let got: Vec<String> = match h.list_subscriptions(Paging::new(0, None)).await { Ok(p) => p.subscriptions.iter().map(|s| s.name.to_string()).collect(), Err(_) => return fail("C11", "ListTopicSubscriptions of a live topic failed".into()) };
             let wantn: Vec<String> = want.iter().map(|x| x.1.clone()).collect();
-            if got != wantn { let tag = set_or_order(&got, &wantn); return fail(if tag == "C13" { "C13" } else { "C11" }, format!("ListTopicSubscriptions(t{}) = {:?}, expected {:?}", i, got, wantn)); }
+            if got != wantn { let tag = set_or_order(&got, &wantn); return fail(if tag == "C13" { "C13" } else if tag == "C10" { "C10+C11" } else { "C11" }, format!("ListTopicSubscriptions(t{}) = {:?}, expected {:?}", i, got, wantn)); }
         }
     }
     Ok(())
 }
 fn gen_lops(rng: &mut Rng, steps: usize) -> Vec<LOp> {
-    (0..steps).map(|_| match rng.below(16) {
+    (0..steps).map(|_| match rng.below(17) {
         0 | 1 | 2 => LOp::CreateTopic(rng.below(2) as usize),
         3 => LOp::DeleteTopic(rng.below(2) as usize, rng.below(2) == 0),
         4 | 5 | 6 => LOp::CreateSub(rng.below(3) as usize, rng.below(2) as usize, rng.below(6) == 0),
@@ -929,6 +945,7 @@ fn gen_lops(rng: &mut Rng, steps: usize) -> Vec<LOp> {
         12 => LOp::DeleteHeld,
         13 => LOp::CreateSubHeld(rng.below(3) as usize),
         14 => LOp::DeleteSubUnderLoad(rng.below(3) as usize),
+        15 => LOp::DeleteSubStale,
         _ => LOp::DropHandles,
     }).collect()
 }
@@ -1041,6 +1058,37 @@ fn race_creates(names: usize, threads: usize, handle: &tokio::runtime::Handle) -
     for n in 0..names {
         let w = wins[n].load(Ordering::SeqCst);
         if w != 1 { return Err(Fail { prop: "C10", what: format!("{} threads raced to create the absent topic race{}: {} creates returned Ok, expected exactly 1", threads, n, w) }); }
+    }
+    // C09: topics created at the same moment under DIFFERENT names never issue the same message id
+    let tm2 = Arc::new(TopicManager::new());
+    let gate2 = Arc::new(AtomicUsize::new(0));
+    let rounds = (names / 4).max(50);
+    let mut hs = Vec::new();
+    for th in 0..threads {
+        let (tm2, gate2, handle) = (Arc::clone(&tm2), Arc::clone(&gate2), handle.clone());
+        hs.push(std::thread::spawn(move || {
+            let _g = handle.enter();
+            let mut mine = Vec::new();
+            for n in 0..rounds {
+                gate2.fetch_add(1, Ordering::SeqCst);
+                while gate2.load(Ordering::SeqCst) < (n + 1) * threads { std::hint::spin_loop(); }
+                if let Ok(t) = tm2.create_topic(TopicName::new("p", &format!("d{}-{}", n, th))) { mine.push(t); }
+            }
+            mine
+        }));
+    }
+    let mut topics = Vec::new();
+    for h in hs { if let Ok(v) = h.join() { topics.extend(v); } }
+    let ids: Vec<(String, u64)> = handle.block_on(async {
+        let mut out = Vec::new();
+        for t in topics.iter() {
+            if let Ok(r) = t.publish_messages(vec![TopicMessage::new(Bytes::from(vec![1]), None)]).await { for id in r.message_ids { out.push((t.name.to_string(), id.value)); } }
+        }
+        out
+    });
+    let mut seen: std::collections::HashMap<u64, String> = std::collections::HashMap::new();
+    for (name, id) in ids {
+        if let Some(other) = seen.insert(id, name.clone()) { return Err(Fail { prop: "C09", what: format!("message id {} was issued by two topics created at the same moment ({} and {})", id, other, name) }); }
     }
     Ok(())
 }
